@@ -49,6 +49,16 @@ func Load(dir string, env []string) (*Program, error) {
 		Env: append(append(os.Environ(), "GOFLAGS=-mod=mod", "GOPROXY=off", "GOSUMDB=off", "GOTOOLCHAIN=local", "GOWORK=off"),
 			env...),
 	}
+	// TAGS=a,b in env selects build tags
+	var keep []string
+	for _, e := range cfg.Env {
+		if strings.HasPrefix(e, "TAGS=") {
+			cfg.BuildFlags = append(cfg.BuildFlags, "-tags="+strings.TrimPrefix(e, "TAGS="))
+			continue
+		}
+		keep = append(keep, e)
+	}
+	cfg.Env = keep
 	initial, err := packages.Load(cfg, "./...")
 	if err != nil {
 		return nil, fmt.Errorf("packages.Load: %v", err)
